@@ -231,6 +231,12 @@ func traceTree(h *H, kind string, dir string) sTree {
 		t["bigdelta"] = sNode{kind: 'f', content: h.bytes(h.n(6<<20, 40<<20) + 3), perm: 0o644, mtime: T}
 		t["a"] = sNode{kind: 'f', content: h.bytes(900), perm: 0o644, mtime: T}
 		t["z"] = sNode{kind: 'f', content: h.bytes(70000), perm: 0o644, mtime: T}
+	case "unrelated":
+		// large files over unrelated (or mostly rewritten) previous content: a checksum list is sent, almost nothing
+		// matches, the sender's unmatched run is far longer than its 256 KiB read window
+		t["u1"] = sNode{kind: 'f', content: h.bytes(600*1024 + 11), perm: 0o644, mtime: T}
+		t["u2"] = sNode{kind: 'f', content: h.bytes(1500*1024 + 3), perm: 0o644, mtime: T}
+		t["u3"] = sNode{kind: 'f', content: h.bytes(300*1024), perm: 0o644, mtime: T}
 	case "mixed":
 		for i := 0; i < 60; i++ {
 			t[fmt.Sprintf("m%02d", i)] = sNode{kind: 'f', content: h.bytes(h.pick(0, 1, 699, 700, 701, 5000)), perm: 0o644, mtime: T}
@@ -249,11 +255,25 @@ func suiteTrace(h *H) {
 	defer os.RemoveAll(base)
 	caps := []int{0, 1, 17, 64 * 1024, -1}
 	caseNo := 0
-	for _, kind := range []string{"tiny", "literal", "sums", "mixed"} {
+	for _, kind := range []string{"tiny", "literal", "sums", "mixed", "unrelated"} {
 		src := traceTree(h, kind, "")
 		// the prior destination: edited copies (so that checksum lists and delta data flow) — no -p in half of the runs
 		dstTree := sTree{}
 		for p, n := range src {
+			if kind == "unrelated" {
+				m := n
+				m.mtime = n.mtime - 100
+				switch p {
+				case "u1":
+					m.content = h.bytes(650 * 1024) // nothing in common
+				case "u2":
+					m.content = append(h.bytes(400*1024), n.content[400*1024:]...) // rewritten head, common tail
+				default:
+					m.content = append(append([]byte{}, n.content[:1000]...), h.bytes(290*1024)...)
+				}
+				dstTree[p] = m
+				continue
+			}
 			if n.kind == 'f' && len(n.content) > 0 && h.rng.Intn(3) > 0 {
 				m := n
 				m.content = append([]byte{}, n.content...)
